@@ -306,7 +306,7 @@ func runC12(c *fw.Ctx) {
 	}
 	// (b) random deep templates
 	r := c.Rand("templates")
-	for i := 0; i < c.PerShard(c.Pick(30000, 1000000)); i++ {
+	for i := 0; i < c.PerShard(c.Pick(200000, 5000000)); i++ {
 		t := c12RandomTemplate(r, 0, c.Pick(5, 7))
 		forms := append(append([]*canon.Node{}, prelude...), qq(t))
 		diffProgram(c, b, fmt.Sprintf("rtmpl-%d", i), forms, names, "template:")
@@ -321,7 +321,7 @@ func runC12(c *fw.Ctx) {
 	r2 := c.Rand("macros")
 	pg := gen.NewPG(r2, gen.ProgOpts{Macros: true, Faults: 3, MaxDepth: c.Pick(5, 6)})
 	lib := map[string]bool{"cond": true, "and": true, "or": true, "->": true, "->>": true}
-	for i := 0; i < c.PerShard(c.Pick(30000, 1000000)); i++ {
+	for i := 0; i < c.PerShard(c.Pick(150000, 4000000)); i++ {
 		forms := pg.Program()
 		if i == 0 {
 			c.Sample(progText(forms))
@@ -354,7 +354,7 @@ func runC12(c *fw.Ctx) {
 	// (d) library macros called directly with effectful operands
 	r3 := c.Rand("lib")
 	pg2 := gen.NewPG(r3, gen.ProgOpts{Macros: true, MaxDepth: 4})
-	for i := 0; i < c.PerShard(c.Pick(8000, 200000)); i++ {
+	for i := 0; i < c.PerShard(c.Pick(40000, 1000000)); i++ {
 		pg2.Program() // advance generator state (fresh names)
 		var f *canon.Node
 		t := gen.Pick(r3, []gen.Ty{gen.TInt, gen.TBool})
